@@ -50,6 +50,26 @@ theorem exact_typeC (H : Hierarchy) (k : Nat) : Exact H (.typeC k) := by
   rw [flat_forall H rfl, forall_top (abs v) (fun w => matchV H w (.typeC k) = true)]
   cases v <;> simp [abs, ATy.top, matchV, member]
 
+theorem fromMro_promotes (b : Nat) (s : Scal) (hs : scalOfB b = some s) (t : Scal) :
+    fromMro s t = clsPromotes s t := by
+  have : s = .int ∨ s = .float ∨ s = .bool := by
+    unfold scalOfB at hs
+    split at hs <;> simp_all
+  rcases this with rfl | rfl | rfl <;> cases t <;> decide
+
+theorem exact_typeU (H : Hierarchy) (ks : List Nat) (bs : List Scal) : Exact H (.typeU ks bs) := by
+  intro v _
+  rw [flat_forall H rfl, forall_top (abs v) (fun w => matchV H w (.typeU ks bs) = true)]
+  cases v with
+  | bclsobj b =>
+    simp only [abs, ATy.top, matchV, member, matchTypeU, memTypeU]
+    cases hb : scalOfB b with
+    | none => simp
+    | some s =>
+      have := fromMro_promotes b s hb
+      simp [this]
+  | _ => simp [abs, ATy.top, matchV, member, matchTypeU, memTypeU]
+
 theorem matchV_opt (H : Hierarchy) (w : VTy) (a : Ann) (hw : w ≠ .nothing) :
     matchV H w (.opt a) = (matchV H w a || matchBase w .none) := by
   cases w <;> first | exact absurd rfl hw | simp [matchV]
